@@ -429,7 +429,7 @@ class Src:
 
 
 BLANKS = [" ", " ", " ", "\t", "\xa0", "　", "\x0b", "\x0c", " "]
-ADVERSARIAL = ["{items}", "{text}", "{keyword}", "{location}", "%(text)s", "{0}", "{}", "$HOME", "${PATH}", "$USER and $_", "~/notes", "~root", "%HOME%", "\ufdd0\ufdd0", "\ufdd0\ufdd1", "\x00\x00", "\ue000\ue001", "\u202bRTL\u202c", "\uff20tag", "\uff03 c", "\uff5c a \uff5c", "Feature\uff1a f", "\uff02\uff02\uff02", "\u201c\u201c\u201c", "caf\u00e9", "cafe\u0301", "\u212a", "\u0130", "\u00df", "\u0660\u0661", '\\"\\"\\"', "\\`\\`\\`", "#12", "{", "}", "{int}", "{0}", "{}", "%s", "%(x)s", "%", "${x}", "\\x41", "\\u00e9", "&lt;", "'", "''", "\"", "x", "a", "word", " ", "Examples", "Background", "Rule", "Scenario Outline", "Feature", "Scenario", "Given x", "When ", "* y", "| a | b |", '"""', "```", "Examples:", "Scenario: s", "Feature: f", "Rule: r",
+ADVERSARIAL = ["```ls -la```", "say \"\"\"hi\"\"\"", "x ``` y", "{items}", "{text}", "{keyword}", "{location}", "%(text)s", "{0}", "{}", "$HOME", "${PATH}", "$USER and $_", "~/notes", "~root", "%HOME%", "\ufdd0\ufdd0", "\ufdd0\ufdd1", "\x00\x00", "\ue000\ue001", "\u202bRTL\u202c", "\uff20tag", "\uff03 c", "\uff5c a \uff5c", "Feature\uff1a f", "\uff02\uff02\uff02", "\u201c\u201c\u201c", "caf\u00e9", "cafe\u0301", "\u212a", "\u0130", "\u00df", "\u0660\u0661", '\\"\\"\\"', "\\`\\`\\`", "#12", "{", "}", "{int}", "{0}", "{}", "%s", "%(x)s", "%", "${x}", "\\x41", "\\u00e9", "&lt;", "'", "''", "\"", "x", "a", "word", " ", "Examples", "Background", "Rule", "Scenario Outline", "Feature", "Scenario", "Given x", "When ", "* y", "| a | b |", '"""', "```", "Examples:", "Scenario: s", "Feature: f", "Rule: r",
                "Background:", "@tag", "# c", "#language: fr", "<a>", "<b>", "\\", "\\n", "\\|", "a.b", "a(b", "$1", "\\1", "[", "*", "+", "?",
                "\x85", " ", " ", "\x1c", "\x1d", "\x1e", "é", "\U0001F600", "日本", ":", "  ", "\t", "b",
                "\ufeff", "\u200b", "\u2060", "\u180e", "\ufeffx", "long tail of ordinary prose without any special character in it at all"]
@@ -530,7 +530,7 @@ def g_titled(s, kws, ctx, dialect, has_tags=True, p_desc=0.4):
             # a line that starts like a keyword line of this dialect, in another capitalisation: free text (keywords are case-sensitive)
             from .refs import DIALECTS as _D, TITLE_CATS as _T
             k = s.choice(_D[dialect][s.choice(_T)])
-            v = s.choice([k.lower(), k.upper(), k.swapcase(), k.title(), k[:1].lower() + k[1:]])
+            v = s.choice([k.lower(), k.upper(), k.swapcase(), k.title(), k[:1].lower() + k[1:], k.replace(" ", "  "), k.replace(" ", "\t"), k + " "])
             if v != k:
                 t["desc"].insert(s.int(len(t["desc"]) + 1), {"k": "text", "raw": g_indent(s) + v + ":" + s.choice(["", " x", " " + k])})
         if s.int(5) == 0 and dialect != "en":
@@ -545,7 +545,7 @@ def g_titled(s, kws, ctx, dialect, has_tags=True, p_desc=0.4):
             # only its first word - free text, keywords are matched exactly
             sk = s.choice([k for k, _ in step_keywords(dialect)])
             first = sk.split(" ")[0]
-            variants = [v for v in (sk.rstrip(" ") + "\u00a0x", sk.rstrip(" ") + "\u202fx", sk.replace("'", "\u2019") + "x", sk.replace("\u2019", "'") + "x", first + " zzz", sk.rstrip(" ") + "\tx")
+            variants = [v for v in (sk.rstrip(" "), sk.rstrip(" ") + g_trail(s), sk.rstrip(" ") + "\u00a0x", sk.rstrip(" ") + "\u202fx", sk.replace("'", "\u2019") + "x", sk.replace("\u2019", "'") + "x", first + " zzz", sk.rstrip(" ") + "\tx")
                         if not any(v.startswith(k2) for k2, _ in step_keywords(dialect))]
             if variants:
                 t["desc"].insert(s.int(len(t["desc"]) + 1), {"k": "text", "raw": g_indent(s) + s.choice(variants)})
